@@ -44,11 +44,18 @@ func (c nullIntCodec) Omit(ptr unsafe.Pointer) bool {
 
 func (c nullIntCodec) Size(ptr unsafe.Pointer, tag []byte) (size int) {
 	ni := (*null.Int)(ptr)
+	if !ni.Valid {
+		// Like a nil pointer, an invalid value writes nothing
+		return 0
+	}
 	return c.IntCodec.Size(unsafe.Pointer(&ni.Int64), tag)
 }
 
 func (c nullIntCodec) Append(data []byte, ptr unsafe.Pointer, tag []byte) []byte {
 	ni := (*null.Int)(ptr)
+	if !ni.Valid {
+		return data
+	}
 	return c.IntCodec.Append(data, unsafe.Pointer(&ni.Int64), tag)
 }
 
@@ -84,11 +91,18 @@ func (c nullBoolCodec) Omit(ptr unsafe.Pointer) bool {
 
 func (c nullBoolCodec) Size(ptr unsafe.Pointer, tag []byte) (size int) {
 	ni := (*null.Bool)(ptr)
+	if !ni.Valid {
+		// Like a nil pointer, an invalid value writes nothing
+		return 0
+	}
 	return c.BoolCodec.Size(unsafe.Pointer(&ni.Bool), tag)
 }
 
 func (c nullBoolCodec) Append(data []byte, ptr unsafe.Pointer, tag []byte) []byte {
 	ni := (*null.Bool)(ptr)
+	if !ni.Valid {
+		return data
+	}
 	return c.BoolCodec.Append(data, unsafe.Pointer(&ni.Bool), tag)
 }
 
@@ -124,11 +138,17 @@ func (c nullFloatCodec) Omit(ptr unsafe.Pointer) bool {
 
 func (c nullFloatCodec) Size(ptr unsafe.Pointer, tag []byte) (size int) {
 	nf := (*null.Float)(ptr)
+	if !nf.Valid {
+		return 0
+	}
 	return c.Float64Codec.Size(unsafe.Pointer(&nf.Float64), tag)
 }
 
 func (c nullFloatCodec) Append(data []byte, ptr unsafe.Pointer, tag []byte) []byte {
 	nf := (*null.Float)(ptr)
+	if !nf.Valid {
+		return data
+	}
 	return c.Float64Codec.Append(data, unsafe.Pointer(&nf.Float64), tag)
 }
 
@@ -165,11 +185,17 @@ func (c nullStringCodec) Omit(ptr unsafe.Pointer) bool {
 
 func (c nullStringCodec) Size(ptr unsafe.Pointer, tag []byte) (size int) {
 	ns := (*null.String)(ptr)
+	if !ns.Valid {
+		return 0
+	}
 	return c.StringCodec.Size(unsafe.Pointer(&ns.String), tag)
 }
 
 func (c nullStringCodec) Append(data []byte, ptr unsafe.Pointer, tag []byte) []byte {
 	ns := (*null.String)(ptr)
+	if !ns.Valid {
+		return data
+	}
 	return c.StringCodec.Append(data, unsafe.Pointer(&ns.String), tag)
 }
 
@@ -226,11 +252,17 @@ func (c *nullTimeCodec) Omit(ptr unsafe.Pointer) bool {
 
 func (c *nullTimeCodec) Size(ptr unsafe.Pointer, tag []byte) (size int) {
 	nt := (*null.Time)(ptr)
+	if !nt.Valid {
+		return 0
+	}
 	return c.TimeCodec.Size(unsafe.Pointer(&nt.Time), tag)
 }
 
 func (c *nullTimeCodec) Append(data []byte, ptr unsafe.Pointer, tag []byte) []byte {
 	nt := (*null.Time)(ptr)
+	if !nt.Valid {
+		return data
+	}
 	return c.TimeCodec.Append(data, unsafe.Pointer(&nt.Time), tag)
 }
 
